@@ -244,7 +244,7 @@ def nsim_bin():
 class NsimWorker:
     def __init__(self, binary, timeout_s=60):
         self.p = subprocess.Popen([binary, str(timeout_s)], stdin=subprocess.PIPE, stdout=subprocess.PIPE,
-                                  stderr=subprocess.DEVNULL, env=build.san_env(), cwd="/")
+                                  stderr=subprocess.DEVNULL, env=dict(build.san_env(), NSIM_TAG=str(os.getpid())), cwd="/")
 
     def run(self, scenario):
         """-> list of step results (dicts) for one scenario"""
@@ -307,8 +307,21 @@ def run_scenarios(scenarios, handler, workers=None, timeout_s=60):
     sweep()
 
 
+def _older_than(path, seconds):
+    import time
+    try:
+        return time.time() - os.lstat(path).st_mtime > seconds
+    except OSError:
+        return False
+
+
 def sweep():
-    for d in glob.glob("/dev/shm/nsim-*"):
+    """scratch of this process's own nsim workers (crashed children leave theirs behind) and anything older than 3 hours;
+    never the scratch of a check running concurrently"""
+    import time
+    mine = set(glob.glob("/dev/shm/nsim-%d-*" % os.getpid()))
+    old = [d for d in glob.glob("/dev/shm/nsim-*") if d not in mine and _older_than(d, 3 * 3600)]
+    for d in list(mine) + old:
         try:
             if os.path.isdir(d):
                 shutil.rmtree(d, ignore_errors=True)
